@@ -10,6 +10,7 @@ From Coq Require Import String.
 From Verif Require Import Base.Bytes Base.Hash Model.Merkle Model.MerkleSpec Model.Contracts Model.TreeStore Model.L1InfoStore
   Model.L1InfoCases Proofs.Frontier Proofs.Rht Proofs.ContractProofs Proofs.SparseUpsert Proofs.TreeStoreProofs
   Proofs.L1InfoProofs Gen.SourceFacts.
+From Verif Require Gen.GenUpdatableTree Proofs.GenAgreeUpdatable.
 Import ListNotations.
 Open Scope N_scope.
 
@@ -146,6 +147,15 @@ Theorem C11_upsert_correct : forall (hash : Type) (node : hash -> hash -> hash) 
   (forall g0 h0 k0, CL node z0 m g0 h0 k0 -> CL node z0 (ins_all heq_dec m (snd res)) g0 h0 k0).
 Proof. intros hash node z0 inj heq_dec. exact (upsert_correct node z0 inj heq_dec). Qed.
 
+(* the translated Go code: Gen/GenUpdatableTree.v is GENERATED from tree/updatabletree.go by tools/go2coq on every run; the hashing
+   loop of UpsertLeaf (bit test, sibling on the left / right, node list) computes exactly `upsert_climb`, the function the theorem
+   above is about, for every hash function, index, leaf and 32 siblings *)
+Theorem C11_generated_UpsertLeaf_loop_is_model : forall (hash : Type) (hash2 : hash -> hash -> hash) (hash0 : hash) idx leaf sibs,
+  List.length sibs = 32%nat ->
+  let '(r, ns) := upsert_climb hash2 0 sibs leaf (fun j => N.testbit idx (N.of_nat j)) in
+  GenUpdatableTree.UpsertLeaf_loop hash hash2 hash0 idx leaf sibs [] = (r, map (GenAgreeUpdatable.to_unode hash) ns).
+Proof. exact GenAgreeUpdatable.UpsertLeaf_loop_agree. Qed.
+
 (* the executable sparse evaluator used by the run-time predicate spec_c11 (short-circuiting all-zero subtrees) IS the reference
    sparse root MerkleSpec.sroot of the same map: the roots the predicate compares with are the roots these theorems speak about *)
 Theorem C11_sroot_ref_is_sroot : forall m, (forall e, In e m -> fst e <= mask32) ->
@@ -221,3 +231,4 @@ Print Assumptions C11_fault_atomic.
 Print Assumptions C11_halted_is_sticky.
 Print Assumptions C11_reorg_nested.
 Print Assumptions C11_rollup_recurrence_refuted.
+Print Assumptions C11_generated_UpsertLeaf_loop_is_model.
